@@ -5,6 +5,8 @@ import (
 	"strconv"
 
 	"google.golang.org/grpc"
+	"google.golang.org/grpc/codes"
+	"google.golang.org/grpc/status"
 
 	"github.com/smart-core-os/sc-api/go/traits"
 )
@@ -41,6 +43,9 @@ func (m *ModelServer) ListWasteRecords(ctx context.Context, req *traits.ListWast
 	}
 
 	count := req.PageSize
+	if count < 0 {
+		return nil, status.Errorf(codes.InvalidArgument, "page size must not be negative: %d", count)
+	}
 	if count == 0 {
 		count = 50
 	} else if count > 1000 {
